@@ -16,26 +16,74 @@ open Duck.Spec
     that list. -/
 theorem C01_args_roundtrip (ch : List (Nat × Bool)) (k : Nat) (args : List Str)
     (cm : Option (Nat × Str)) :
-    parseArgsLoop false (renderArgs ch k args ++ renderComment cm) = .ok args := by
-  sorry
+    parseArgsLoop false (renderArgs ch k args ++ renderComment cm) = .ok args :=
+  parseArgsLoop_render ch args k (renderComment cm) (EolTail.renderComment cm)
 
 /-- One rendered line parses to exactly the instruction it was rendered from. -/
 theorem C01_line_roundtrip (ch : Choices) (i : ScriptInstr) (hi : InstrOK i) (hc : ChoicesOK ch) :
-    parseLine (renderLine ch i) = .ok (expected i) := by
-  sorry
+    parseLine (renderLine ch i) = .ok (expected i) :=
+  line_roundtrip ch i hi hc
 
 /-- A script of n rendered lines parses to n instructions in order, the k-th carrying
     source line number k. -/
 theorem C01_script_roundtrip (items : List (Choices × ScriptInstr × Bool))
     (h : ∀ x ∈ items, InstrOK x.2.1 ∧ ChoicesOK x.1) :
     parseText (renderScript items) = .ok (numbered 1 items) := by
-  sorry
+  unfold parseText parseTextFs
+  exact script_roundtrip _ _ items h 1
 
 /-- … also when the last line is not terminated. -/
 theorem C01_script_roundtrip_open (items : List (Choices × ScriptInstr × Bool))
     (h : ∀ x ∈ items, InstrOK x.2.1 ∧ ChoicesOK x.1)
     (hlast : ∀ x, items.getLast? = some x → renderLine x.1 x.2.1 ≠ []) :
     parseText (renderScriptOpen items) = .ok (numbered 1 items) := by
-  sorry
+  unfold parseText parseTextFs
+  exact script_roundtrip_open _ _ items h hlast 1
+
+/-! ### the hypotheses are satisfiable (non-vacuity) -/
+
+/-- the label `:l`, the output `x`, the command `cmd` and awkward arguments -/
+def C01_sampleInstr : ScriptInstr :=
+  { label := some ":l".toList, output := some "x".toList, command := some "cmd".toList,
+    args := some ["".toList, "a b".toList, "x\"y\\".toList, "#".toList, "=".toList,
+      "${v}".toList, "\n".toList] }
+
+def C01_sampleChoices : Choices :=
+  { lead := " \t".toList, trail := "\r".toList, afterLabel := 2, eqBefore := 1, eqAfter := 3,
+    args := [(0, true), (2, false)], comment := some (1, " note # \" ".toList) }
+
+example : instrOKb C01_sampleInstr = true := by decide
+
+example : InstrOK C01_sampleInstr := by
+  refine ⟨?_, ?_, ?_, ?_⟩
+  · intro l h
+    cases h
+    exact ⟨"l".toList, rfl, by decide, by decide, by decide⟩
+  · intro o h
+    cases h
+    refine ⟨⟨by decide, by decide, by decide⟩, ?_, ?_⟩
+    · simp [NoEq]
+    · intro h; cases h
+  · intro c h
+    cases h
+    refine ⟨⟨by decide, by decide, by decide⟩, ?_⟩
+    intro h; cases h
+  · exact ⟨fun h => by cases h, by decide⟩
+
+example : ChoicesOK C01_sampleChoices := by
+  refine ⟨by decide, by decide, ?_⟩
+  intro k t h
+  cases h
+  decide
+
+/-- so the theorem applies to the sample line -/
+example : parseLine (renderLine C01_sampleChoices C01_sampleInstr) = .ok (.script C01_sampleInstr) :=
+  C01_line_roundtrip _ _ (by decide_instr) (by decide_choices)
+
+/-- an instruction outside the domain (output variable containing `=`) is rejected by `InstrOK` -/
+example : ¬ InstrOK { output := some "a=b".toList, command := some "c".toList } := by
+  intro h
+  have := (h.output "a=b".toList rfl).2.1
+  exact absurd (this '=' (by decide)) (by decide)
 
 end Duck
